@@ -79,15 +79,22 @@ def process_config_file(dConfiguration, tempConfiguration, sConfigFilename):
             dReturn = process_file_list_key(dReturn, tempConfiguration, sKey, sConfigFilename)
 
         elif sKey == "rule":
+            if sKey not in dReturn:
+                dReturn[sKey] = {}
             for sRule in tempConfiguration[sKey]:
-                try:
-                    dReturn[sKey][sRule] = tempConfiguration[sKey][sRule]
-                except KeyError:
-                    dReturn[sKey] = {}
-                    dReturn[sKey][sRule] = tempConfiguration[sKey][sRule]
+                merge_rule_configuration(dReturn[sKey], sRule, tempConfiguration[sKey][sRule])
         else:
             dReturn[sKey] = tempConfiguration[sKey]
     return dReturn
+
+
+def merge_rule_configuration(dRules, sRule, dNew):
+    """Attributes given by a later configuration override the same attributes of an earlier one and leave the others alone."""
+    if isinstance(dNew, dict) and isinstance(dRules.get(sRule), dict):
+        for sAttribute in dNew:
+            merge_rule_configuration(dRules[sRule], sAttribute, dNew[sAttribute])
+    else:
+        dRules[sRule] = dNew
 
 
 dDeprecatedOption = {}
